@@ -18,7 +18,7 @@ MANIFEST = {
 }
 THEOREMS = ['C02.capSites_table', 'C02.wrapSpecs_table', 'C02.cmd_sources_listed', 'C02.private_table', 'C02.step_changes_only_if_allowed', 'C02.admin_gate', 'C02.cap_growth_entitled', 'C02.no_new_owner_step', 'C02.not_granted_owner', 'C02.reload_caps_sub',
             'C02.no_new_owner_reload', 'C02.reload_preserves_inv', 'C02.reloadNoFlush_preserves_inv', 'C02.step_preserves_inv', 'C02.history_safe',
-            'C02.step_preserves_fileOk', 'C02.reloadNoFlush_caps_sub', 'C02.no_new_owner_reloadNoFlush', 'C02.reloadUsersFrom_file', 'C02.reloadNoFlush_owners', 'C02.step_ownInv', 'C02.history_owner_safe', 'C02.permCaps_perm', 'C02.fileOrder_fileOk', 'C02.fileOrder_fileOwn', 'C02.stepEv_ownInv', 'C02.history_owner_safe_ev', 'C02.history_safe_all_ev', 'C02.order_immaterial_when_storable', 'C02.cap_growth_gated', 'C02.step_caps_all', 'C02.history_caps_entitled', 'C02.flushReload_fileOk',
+            'C02.step_preserves_fileOk', 'C02.reloadNoFlush_caps_sub', 'C02.no_new_owner_reloadNoFlush', 'C02.reloadUsersFrom_file', 'C02.reloadNoFlush_owners', 'C02.step_ownInv', 'C02.history_owner_safe', 'C02.permCaps_perm', 'C02.fileOrder_fileOk', 'C02.fileOrder_fileOwn', 'C02.stepEv_ownInv', 'C02.history_owner_safe_ev', 'C02.history_safe_all_ev', 'C02.order_immaterial_when_storable', 'C02.cap_growth_gated', 'C02.step_caps_all', 'C02.history_caps_entitled', 'C02.invert_ok_of_isCapability', 'C02.addCaps_complete', 'C02.removeCaps_complete', 'C02.chanCapSet_saved', 'C02.flushReload_fileOk',
             'C02.reloadNoFlush_fileOk', 'C02.step_safe_all', 'C02.history_safe_all', 'C02.st0_inv3',
             'C02.st0_inv', 'C02.cfg0_hashSafe']
 TRUSTED = ['Lean 4.33.0 kernel; axioms ⊆ {propext, Classical.choice, Quot.sound}',
@@ -221,7 +221,10 @@ def gen_cmd(r, S=None):
     if k == 'chanCapUnset':
         chans = [(n, c['caps']) for n, c in (S['chans'] if S else []) if c['caps']]
         if chans and r.random() < 0.7:
-            n, cs = r.choice(chans); return (k, [n, [r.choice(cs) for _ in range(r.randint(1, 2))]])
+            n, cs = r.choice(chans)
+            if r.random() < 0.25:       # a capability that is held, then one that is not a capability at all
+                return (k, [n, [r.choice(cs), r.choice(['\tx', 'x\x0c', '\x0bop'])]])
+            return (k, [n, [r.choice(cs) for _ in range(r.randint(1, 2))]])
         return (k, [r.choice(CHANS), [cap() for _ in range(r.randint(1, 3))]])
     if k == 'chanSetDefault': return (k, [r.choice(CHANS), r.random() < 0.5])
     if k == 'upkeep': return (k, [r.random() < 0.5])
@@ -358,6 +361,8 @@ def run_history(b, r, n_steps, out, hist_id):
         else:
             k, args = gen_cmd(r, prev)
         actor = gen_actor(r, k)
+        if k in ('chanCapUnset', 'chanCapSet') and any(not ircdb.isCapability(x) for x in args[1]) and r.random() < 0.5:
+            pending.append(('reload', []))      # a refused set/unset, then SIGHUP: nothing may have changed in between
         if k == 'flushReload' and (any(c16.inverse_pair(I16, u['caps']) for _, u in prev['users']) or
                                    any(c16.inverse_pair(I16, c['caps']) for _, c in prev['chans'])):
             # finding C16-capability-inverse-pair: with both '--foo' and '-foo' in a set, which of them survives a
@@ -463,6 +468,15 @@ def run_history(b, r, n_steps, out, hist_id):
         new_owners = owners_of(cur) - owners_of(prev)
         if new_owners:
             msgs.append('account(s) %s became owner through %s %r by %s' % (sorted(new_owners), k, args, actor))
+        if k in ('flushReload', 'reload'):
+            # a channel capability (one that gives, not an anti-capability) appears at a reload point only if memory
+            # and channels.conf had come apart (a command that changed the live record and then did not save it)
+            cbefore = {b.ircutils.toLower(n): set(c_['caps']) for n, c_ in prev['chans']}
+            for n, c_ in cur['chans']:
+                g = {x for x in set(c_['caps']) - cbefore.get(b.ircutils.toLower(n), set()) if not x.startswith('-')}
+                if g:
+                    msgs.append('channel %s gained %s at %s' % (n, sorted(g), 'flush+reload' if k == 'flushReload' else
+                                                                 'a reload without flush (SIGHUP / config reload)'))
         before = dict(prev['users'])
         for i, u in cur['users']:
             old = set(before[i]['caps']) if i in before else set()
